@@ -473,3 +473,76 @@ def check_calc_cA(led):
                 probs += pycheck.diff_kernel(t, 'fcA', g['model'], dict(aeromu=real('aeromu'), size=g['num'] * kw['m'] * kw['n'], row0=0, col0=0), want)
             report(led, name, func, probs)
     led.solver_time('z3-feasibility', it.solver_time)
+
+
+def check_calc_kT_fint(led):
+    """Panel.calc_kT = fkL_num(NLgeom=1) + fkG_num(NLgeom=1) with the caller's state; Panel.calc_fint passes state, laminate, offsets"""
+    from ..kernel import InArray
+    it, calls = mk()
+    for geom, szform in itertools.product(('plate', 'cpanel'), ('default', 'given')):
+        holder = {}
+        for method in ('calc_kT', 'calc_fint'):
+            func = PF + method
+            led.function(func)
+
+            def run():
+                del calls[:]
+                p, kw, want, g = build(it, geom, 'uniform', 'none', {})
+                it.call(it.getattr(p, 'calc_k0'), [], dict(silent=True))
+                del calls[:]
+                skw, sw = sizes(it, szform, g, kw)
+                c = InArray('c', shape=(sw['size'],))
+                holder.update(kw=kw, want=want, g=g, sw=sw, c=c)
+                if method == 'calc_kT':
+                    return it.call(it.getattr(p, 'calc_kT'), [], dict(skw, c=c, silent=True))
+                a_ = dict(size=skw.get('size'), col0=skw.get('col0', 0), silent=True) if skw else dict(silent=True)
+                return it.call(it.getattr(p, 'calc_fint'), [c], a_)
+            for path, out in it.explore(run):
+                g, kw, want, sw = holder['g'], holder['kw'], holder['want'], holder['sw']
+                name = '%s[%s,size=%s]' % (func, geom, szform)
+                if out[0] != 'return':
+                    report(led, name + '/no-exception', func, ['raises %s%s' % (out[1].tname, tuple(str(a)[:80] for a in out[1].eargs))], signature='raise:' + out[1].tname)
+                    continue
+                r = out[1]
+                probs = []
+                if method == 'calc_kT':
+                    top = pysym._flat_terms(r) if isinstance(r, Opaque) else [r]
+                    kern = []
+                    for t in top:
+                        w_, ts = pycheck.terms_of(t)
+                        if w_[:1] != ['symmetrized']:
+                            probs.append('a tangent contribution is not symmetrized')
+                        kern += [x for k_, x in ts]
+                    fns = [x.f['fn'] for x in kern if isinstance(x, Opaque) and x.kind == 'kernel']
+                    if fns != ['fkL_num', 'fkG_num']:
+                        probs.append('kernels %s, expected fkL_num + fkG_num' % fns)
+                    for x in kern:
+                        a_ = x.f['args']
+                        if getattr(a_.get('cs'), 'name', None) != 'c':
+                            probs.append('%s does not receive the caller state' % x.f['fn'])
+                        if panelctx.vkey(a_.get('NLgeom')) != panelctx.vkey(1):
+                            probs.append('%s called with NLgeom=%s, expected 1' % (x.f['fn'], pycheck.describe(a_.get('NLgeom'))))
+                        if panelctx.vkey(a_.get('Finput')) != panelctx.vkey(want['lam.ABD']):
+                            probs.append('%s: laminate is not the ABD of the panel definition' % x.f['fn'])
+                        for k2 in ('size', 'row0', 'col0'):
+                            if panelctx.vkey(a_.get(k2)) != panelctx.vkey(sw[k2]):
+                                probs.append('%s: %s = %s, expected %s' % (x.f['fn'], k2, pycheck.describe(a_.get(k2)), pycheck.describe(sw[k2])))
+                        for k2, wv in (('nx', kw['m']), ('ny', kw['n'])):
+                            if panelctx.vkey(a_.get(k2)) != panelctx.vkey(wv):
+                                probs.append('%s: %s = %s, expected %s' % (x.f['fn'], k2, pycheck.describe(a_.get(k2)), pycheck.describe(wv)))
+                        probs += [d_ for d_ in pycheck.diff_kernel(x, x.f['fn'], g['model'] + '_num', {}, want) if 'argument' not in d_]
+                else:
+                    if not (isinstance(r, Opaque) and r.kind == 'kernel' and r.f['fn'] == 'calc_fint'):
+                        probs.append('result is %s' % pycheck.describe(r))
+                    else:
+                        a_ = r.f['args']
+                        if getattr(a_.get('cs'), 'name', None) != 'c':
+                            probs.append('the kernel does not receive the caller state')
+                        if panelctx.vkey(a_.get('Finput')) != panelctx.vkey(want['lam.ABD']):
+                            probs.append('laminate is not the ABD of the panel definition')
+                        for k2, wv in (('size', sw['size']), ('col0', sw['col0']), ('nx', kw['m']), ('ny', kw['n'])):
+                            if panelctx.vkey(a_.get(k2)) != panelctx.vkey(wv):
+                                probs.append('%s = %s, expected %s' % (k2, pycheck.describe(a_.get(k2)), pycheck.describe(wv)))
+                        probs += [d_ for d_ in pycheck.diff_kernel(r, 'calc_fint', g['model'] + '_num', {}, want) if 'argument' not in d_]
+                report(led, name, func, probs)
+    led.solver_time('z3-feasibility', it.solver_time)
